@@ -390,8 +390,14 @@ void sqf::fileio::impl_default::add_mapping(std::string_view viewPhysical, std::
         }
     }
 
-    // Add physical path to final tree node
-    tree->physical.push_back(std::filesystem::path(phys).lexically_normal());
+    // Add physical path to final tree node (without trailing separator: "dir/" ends in
+    // an empty path element, which no path below dir starts with)
+    auto physical = std::filesystem::path(phys).lexically_normal();
+    if (!physical.has_filename() && physical.has_relative_path())
+    {
+        physical = physical.parent_path();
+    }
+    tree->physical.push_back(physical);
 }
 
 std::string sqf::fileio::impl_default::read_file(sqf::runtime::fileio::pathinfo info) const
